@@ -12,7 +12,7 @@ GEN = ['Chars']
 OBLIGATIONS = ['PGA.GroupName.' + t for t in [
     'C19_tab_limit_pos', 'C19_tab_ascii_digits', 'C19_parse_canon', 'C19_canon_eq_iff',
     'C19_spelling_independent', 'C19_parse_spell', 'C19_eq_is_name_eq', 'C19_eq_str',
-    'C19_count_without_name']]
+    'C19_count_without_name', 'C19_index_same_entry', 'C19_index_by_string', 'C19_eq_equivalence']]
 RULE = ('cases = (centre, multiset of peripherals) pairs: bounded-exhaustive multisets over a 7-name alphabet '
         '(all orderings, all run-length spellings), random larger multisets over a 16-name alphabet incl. bracketed, '
         'multi-letter, digit-bearing and non-ASCII names, every group name of every shipped library, and malformed '
